@@ -222,6 +222,22 @@ def oracles(trial, calls):
             if len({o['out'] for o in pubs}) != 1: v['C07'].append(('bal-two-outputs', f'id {sorted(mids)} published on outputs {sorted({o["out"] for o in pubs})}'))
         for o in outs:
             if o['k'] == 'exc': v['C02'].append(('exception', o['e']))
+    if trial['balance']:
+        # C05 on a balanced publisher: a frame published on an output to which only ephemeral listeners are attached, while synchronised consumers are tracked on
+        # other outputs, is a frame those consumers never see - the listener changed which frames they receive (known finding: out_nrequested counts '?' clients)
+        info = {}
+        for c in trial['clients']:
+            for fid in (c['cid'] + c['uid'], c['cid'] + c['uid'] + "'"): info[fid] = (c['out'], c['eph'])
+        snaps = trial.get('_snaps') or []
+        for k, outs in enumerate(calls):
+            if k >= len(snaps): break
+            pubs = {o['out'] for o in outs if o['k'] == 'pub' and o['mid'] >= 0}
+            tracked = [info[f] for f in snaps[k]['clients'] if f in info]
+            for o in pubs:
+                if not any(out == o and eph == 0 for out, eph in tracked) and any(out == o and eph for out, eph in tracked) and any(out != o and eph == 0 for out, eph in tracked):
+                    v['C05'].append(('bal-eph-only-output-served', f"call #{k}: a frame set was published on balanced output {o} where only ephemeral listeners are attached, "
+                                     f"while synchronised consumers are tracked on other outputs: they never see that frame"))
+                    break
     pr = publish_needs_request(trial, calls)
     v['C04'] += pr
     if trial['balance']: v['C07'] += [('bal-output-not-ready', w) for _, w in pr]
